@@ -36,7 +36,7 @@ var modeTextFiles = []string{"t1.txt", "t2.txt", "t3.txt", "empty.txt", "nl.txt"
 
 // total jq programs that behave the same on fq's JSON decode values and on plain JSON
 // (not `.[]` on objects: gojqx.Object.JQValueEach iterates in Go map order — reported, outside C17)
-var modeProgs = []string{".", "[.]", "type", "length", "tojson", ".,.", "[.,1]", "{v:.}", "empty", "1,\"s\",null",
+var modeProgs = []string{"def f: 1;", "", "# c", "def f: 1; # c", "def f: [.]; def g: f;", "def f: [.]; f", ".", "[.]", "type", "length", "tojson", ".,.", "[.,1]", "{v:.}", "empty", "1,\"s\",null",
 	"if type==\"number\" then error(\"" + progErrText + "\") else . end", "[$x,.]", "$x", "[$x,$y]", "tostring", "[.[0]?]",
 	"., if type==\"string\" then error(\"" + progErrText + "\") else empty end"}
 
@@ -256,6 +256,12 @@ func (s modeSpec) reference() (string, int, error) {
 	if err != nil {
 		return "", 0, err
 	}
+	if q.Term == nil && q.Left == nil && q.Right == nil && q.Func == "" {
+		// jq: a program without a root expression (empty, comments, definitions only) is the identity
+		if q, err = gojq.Parse(s.prog + "\n."); err != nil {
+			return "", 0, err
+		}
+	}
 	names := make([]string, 0, len(s.vars))
 	for k := range s.vars {
 		names = append(names, "$"+k)
@@ -460,6 +466,7 @@ func (rn *runner) modeCases(g *gen, n int) {
 		{"-Rs", ".", "empty.txt"}, {"-s", ".", "arr.json"}, {"-c", "--arg", "x", "v", "[$x,.]", "--", "a.json"}, {"-nc", "--argjson", "x", "{\"k\":1}", "$x"},
 		{"-rc", "--raw-file", "x", "t1.txt", "$x", "n.json"}, {"-cs", "length", "--", "a.json", "b.json", "n.json"}, {".", "arr.json"}, {"-n", "[.]"},
 		{"-R", "-s", "-c", "length", "t1.txt"}, {"-rj", ".", "str.json", "n.json"},
+		{"-c", "def f: 1;", "a.json", "n.json"}, {"-c", "", "a.json"}, {"-c", "# c", "a.json"}, {"-nc", "def f: 1;"}, {"-sc", "def f: 1; # c", "a.json", "n.json"},
 	} {
 		rn.modeCase(av)
 	}
